@@ -344,7 +344,12 @@ N_Crash(r) == [Cur EXCEPT !.up = [up EXCEPT ![r] = FALSE],
 \*   epoch-gap         the leader's log has no record of the follower's last
 \*                     epoch (the protocol returns no epoch, so the follower
 \*                     cannot see that its own tail is from a foreign epoch)
-\*   hw-fallback       leader unreachable: truncation to the local, lagging HW
+\*   hw-fallback       leader unreachable: truncation to the local, lagging HW deleted a
+\*                     committed record the follower held
+\*   hw-fallback-reported  leader unreachable (but serving): the truncation to the local HW deleted
+\*                     records the follower had reported to that leader as held
+\*   hw-fallback-kept  leader unreachable: what the truncation to the local HW left is not
+\*                     a prefix of the serving leader's log (an orphan was kept)
 Reconcile(f, n, ecn, lf, ecf, reach) ==
   IF reach
   THEN LET e == LatestEpoch(ecf)
@@ -356,11 +361,27 @@ Reconcile(f, n, ecn, lf, ecf, reach) ==
        IN <<after, TruncEc(ecf, ans + 1),
             IF ~bad THEN {} ELSE IF ans # ref THEN {"epoch-convention"} ELSE {"epoch-gap"}>>
   ELSE LET h == hw[f]
-           after == IF Len(lf) - 1 = h THEN lf ELSE TruncLog(lf, h + 1)
-           cut == \E c \in committed : c.o >= h + 1 /\ c.o < Len(lf) /\ lf[c.o + 1] = c.rec
-           bad == cut \/ (Leading(n) /\ ~IsPrefixOf(after, log[n]))
-       IN <<after, IF Len(lf) - 1 = h THEN ecf ELSE TruncEc(ecf, h + 1),
-            IF bad THEN {"hw-fallback"} ELSE {}>>
+           \* truncateToHW, three branches: the log ends at the HW - nothing to do; the HW is still -1 (no
+           \* commit ever seen by this replica, or its checkpoint is missing): NOTHING in the log is known
+           \* to be committed, the log is emptied completely (Truncate(0)) and refetched; otherwise
+           \* everything above the HW goes
+           noop == Len(lf) - 1 = h
+           at == IF h < 0 THEN 0 ELSE h + 1
+           after == IF noop THEN lf ELSE IF h < 0 THEN <<>> ELSE TruncLog(lf, at)
+           \* the two directions in which the fallback can go wrong:
+           \*   cut   it DELETES a committed record the follower holds (the open finding hw-fallback)
+           \*   kept  what it KEEPS is not a prefix of the serving leader's log (an orphan stays below
+           \*         whatever HW the follower adopts next) - never the case for the action as specified
+           \*         unless another defect put the orphan below the follower's HW before
+           \*   reported  it deletes records the follower had REPORTED to the serving leader as held (not
+           \*         committed yet): the leader only ever raises a replica's offset (updateLatestOffset), so
+           \*         it goes on counting them for the commit point (found in round 5, open finding)
+           cut == \E c \in committed : c.o >= at /\ c.o < Len(lf) /\ lf[c.o + 1] = c.rec
+           kept == Leading(n) /\ ~IsPrefixOf(after, log[n])
+           reported == Leading(n) /\ f \in DOMAIN isrOff[n] /\ isrOff[n][f] > Len(after) - 1
+       IN <<after, IF noop THEN ecf ELSE TruncEc(ecf, at),
+            (IF cut THEN {"hw-fallback"} ELSE {}) \cup (IF kept THEN {"hw-fallback-kept"} ELSE {})
+              \cup (IF reported THEN {"hw-fallback-reported"} ELSE {})>>
 
 \* ---- restart of a crashed replica: reopen the log, rebuild the partition from
 \* the current metadata, resume as leader (same epoch continues: NewLeaderEpoch
